@@ -8,7 +8,7 @@
    ledger g_starts. *)
 From Coq Require Import List Bool Arith ZArith Lia.
 Import ListNotations.
-From Stab.model Require Import Base StatusM Readiness StageStat Engine Conc.
+From Stab.model Require Import Base StatusM Readiness StageStat Conc.
 From Stab.gen Require Import Gen_Config Gen_Guards Gen_Occ Gen_Conc.
 From Stab.proofs Require Import ConcP.
 
@@ -16,8 +16,15 @@ From Stab.proofs Require Import ConcP.
 Theorem C04_source_shape :
   conc_shape_ok = true /\ claim_uses_expected_phase = true /\ claim_phase_fresh = NOT_STARTED /\ claim_phase_zombie = RUNNING /\
   claim_conc_error_swallowed = true /\ plan_conc_error_swallowed = true /\ mutex_requeue_increment = 1%Z /\
-  join_tracking_max_tries = 5%Z /\ join_tracking_rereads = true.
-Proof. exact (conj eq_refl (conj eq_refl (conj eq_refl (conj eq_refl (conj eq_refl (conj eq_refl (conj eq_refl (conj eq_refl eq_refl)))))))). Qed.
+  join_tracking_max_tries = 5%Z /\ join_tracking_rereads = true /\
+  (* the CAS shapes of store_stage (Gen_Occ, from transaction.py / stage_ops.py): version always, status with expected_phase *)
+  txn_phase_where_version && txn_phase_where_status && txn_phase_where_id && txn_nophase_where_version && txn_nophase_where_id &&
+  plain_phase_where_version && plain_phase_where_status && plain_nophase_where_version && txn_rowcount_check && plain_rowcount_check &&
+  txn_ctx_rollback && negb plain_rollback_on_error = true.
+Proof.
+  exact (conj eq_refl (conj eq_refl (conj eq_refl (conj eq_refl (conj eq_refl (conj eq_refl (conj eq_refl (conj eq_refl
+        (conj eq_refl eq_refl))))))))).
+Qed.
 
 (* OCC: whatever the interleaving, a stage object held by a worker is never newer than the row, and when it has the
    row's version it IS the row - so a store that passes its version CAS modifies the current row (no lost update) *)
